@@ -53,6 +53,9 @@ pub enum Kind {
     /// a concurrent iterator built over `base.values()` of ANOTHER concurrent iterator (over a
     /// slice) that is pulled directly at the same time (`Op::BasePull`): C11 only, not in `ALL`
     NestedValues,
+    /// `ConIterOfIter` over a probe iterator that never ends by itself (a search that is stopped
+    /// with `skip_to_end`): C09 only, not in `ALL`; no operation that runs "until the end"
+    EndlessIter,
 }
 
 impl Kind {
@@ -90,7 +93,10 @@ impl Kind {
         )
     }
     pub fn known_size(self) -> bool {
-        !self.is_iter() && !self.is_nested()
+        !self.is_iter() && !self.is_nested() && !self.is_endless()
+    }
+    pub fn is_endless(self) -> bool {
+        self == Kind::EndlessIter
     }
     pub fn is_nested(self) -> bool {
         self == Kind::NestedValues
@@ -1531,7 +1537,11 @@ pub fn execute(cfg: &RunCfg, run_no: u32) -> RunRecord {
     };
     // ranges have no elements with identity (and may be astronomically long)
     let tail = if cfg.kind.is_iter() { cfg.tail } else { 0 };
-    let ledger_n = if cfg.kind.is_range() { 0 } else { n + tail };
+    let ledger_n = if cfg.kind.is_range() || cfg.kind.is_endless() {
+        0
+    } else {
+        n + tail
+    };
     elems::ledger_reset(ledger_n, run_no, clone_panic);
     elems::probe_reset(probe_panic);
     elems::set_drop_panic(match cfg.panic {
@@ -1752,6 +1762,14 @@ pub fn execute(cfg: &RunCfg, run_no: u32) -> RunRecord {
                 e.id as usize == i && e.gen == 0 && e.payload == elems::payload_of(seed, i as u64)
             });
             o
+        }
+        Kind::EndlessIter => {
+            // cfg.len is only a bound for the model; the source never returns None
+            let src = (0u32..).map(move |i| Plain {
+                id: i,
+                payload: elems::payload_of(seed, i as u64),
+            });
+            drive(cfg, Probe::new(src, n, Hint::Unbounded).into_con_iter())
         }
         Kind::NestedValues => {
             let data = mk_vec();
